@@ -12,7 +12,7 @@ _ST = re.compile(
     r"fid=(?P<fid>\d+) sr=(?P<sr>\d) stb=(?P<stb>\d+) pq=(?P<pq>\d+) rq=(?P<rq>\d+) \| snd q=(?P<sq>\d+) base=(?P<sbase>\d+) "
     r"next=(?P<snext>\d+) alloc=(?P<salloc>\d+) total=(?P<stotal>\d+) \| fq wbase=(?P<fwbase>\d+) next=(?P<fnext>\d+) "
     r"lbase=(?P<flbase>\d+) llen=(?P<fllen>\d+) rl=(?P<frl>\d) lf=(?P<lf>\S+) ad=(?P<ad>\S+) rb=(?P<rb>\S+) li=(?P<li>\S+) \| "
-    r"rcv base=(?P<rbase>\d+) end=(?P<rend>\d+) alloc=(?P<ralloc>\d+) crf=(?P<crf>[0-9a-f]+) wrf=(?P<wrf>\d) \| "
+    r"rcv base=(?P<rbase>\d+) end=(?P<rend>\d+) alloc=(?P<ralloc>\d+) crf=(?P<crf>[0-9a-f]+) wrf=(?P<wrf>\d) held=(?P<held>\d+) \| "
     r"faq base=(?P<qbase>\d+) len=(?P<qlen>\d+) \| src X=(?P<X>\d+) max=(?P<max>\d+) mode=(?P<mode>\S+) plr=(?P<plr>\S+) "
     r"nfe=(?P<nfe>\S+) idle=(?P<idle>\d) rtts=(?P<rtts>\S+) rttms=(?P<rttms>\S+) rtoms=(?P<rtoms>\S+) rs=(?P<rs>\S+)")
 
@@ -23,7 +23,7 @@ def parse_st(line):
         return None
     d = m.groupdict()
     for k in ("sbs", "pend", "now", "rtt", "rto", "credit", "fid", "sq", "sbase", "snext", "salloc", "stotal", "fwbase",
-              "fnext", "flbase", "fllen", "rbase", "rend", "ralloc", "qbase", "qlen", "X", "max", "pq", "rq"):
+              "fnext", "flbase", "fllen", "rbase", "rend", "ralloc", "held", "qbase", "qlen", "X", "max", "pq", "rq"):
         d[k] = int(d[k])
     return d
 
@@ -52,7 +52,7 @@ def events(ops, out):
 
 
 def endpoint_of(t):
-    if t[0] == "deliver":
+    if t[0] in ("deliver", "replayack"):
         return int(t[3])
     if t[0] == "relay":
         return int(t[2])
@@ -202,6 +202,8 @@ def bounds_oracle(ops, out):
             continue
         if st["ralloc"] > ceilF(c["rxalloc"]):
             return "endpoint %d holds %d bytes of receive allocation, limit %d" % (e, st["ralloc"], ceilF(c["rxalloc"]))
+        if st["held"] > ceilF(c["rxalloc"]):
+            return "endpoint %d holds %d bytes of received packet data (reassembly buffers + undelivered packets), limit %d" % (e, st["held"], ceilF(c["rxalloc"]))
         if st["salloc"] > ceilF(c["txalloc"]):
             return "endpoint %d has %d unacknowledged (fragment-rounded) bytes outstanding, peer limit %d" % (e, st["salloc"], ceilF(c["txalloc"]))
         if (st["snext"] - st["sbase"]) % M20 > c["txpw"]:
@@ -400,4 +402,29 @@ def stall_oracle(ops, out, pairs=((0, 1), (1, 0)), rounds=24):
         if a[:3] == b[:3]:
             return "endpoint %d stalled: pending=%d send_buffer=%d but no progress (base %d, queue %d, delivered %d) over the last %d loss-free rounds" % (
                 src, fin["pend"], fin["sbs"], b[0], b[1], b[2], rounds)
+    return None
+
+
+def twin_oracle(ops, out):
+    """C15: endpoint 2 (which also sees duplicated / replayed genuine acks) must emit the same frames and
+    hold the same RTT, loss and rate estimates as endpoint 0 at corresponding points."""
+    ev = events(ops, out)
+    seq = {0: [], 2: []}
+    for (t, info, term) in ev:
+        e = endpoint_of(t)
+        if e in (0, 2) and t[0] in ("flush", "step"):
+            st = parse_st(term) if term and term.startswith("st ") else None
+            frames = [l for l in info if l.startswith("frame ")]
+            key = None
+            if st:
+                key = (st["X"], st["mode"], st["plr"], st["rtts"], st["rttms"], st["rtoms"], st["li"], st["rs"], st["sbase"], st["snext"],
+                       st["rq"], st["pq"], st["fwbase"], st["fnext"], st["sbs"])
+            seq[e].append((t[0], frames, key))
+    for i, (a, b) in enumerate(zip(seq[0], seq[2])):
+        if a[1] != b[1]:
+            return "replayed/duplicated acks changed the frames emitted at %s #%d: %d vs %d frames" % (a[0], i, len(a[1]), len(b[1]))
+        if a[2] != b[2]:
+            names = ("X", "mode", "prev_loss", "rtt_s", "rtt_ms", "rto_ms", "loss_intervals", "recv_set", "pkt_base", "pkt_next", "resend_q", "pending_q", "frame_base", "frame_next", "send_buffer")
+            diff = [n for n, x, y in zip(names, a[2] or (), b[2] or ()) if x != y]
+            return "replayed/duplicated acks changed sender state after %s #%d: %s differ" % (a[0], i, ",".join(diff))
     return None
